@@ -1,3 +1,4 @@
 import OsuModel.FileCache
 import OsuModel.TimeIntegration
 import OsuModel.TimeConv
+import OsuModel.Spectral
